@@ -160,7 +160,13 @@ func verifC05Sys(id string, seed int64) *verifSys {
 			evs = append(evs, verifEv{K: "smpstart", I: 0})
 		}
 		if m.ReAKE > 0 {
-			evs = append(evs, verifEv{K: "reake", I: 0}, verifEv{K: "reake", I: 1})
+			if m.ReAKE == 2 {
+				if len(m.Net[0])+len(m.Net[1]) == 0 {
+					evs = append(evs, verifEv{K: "reake2", I: 0}, verifEv{K: "reake2", I: 1})
+				}
+			} else {
+				evs = append(evs, verifEv{K: "reake", I: 0}, verifEv{K: "reake", I: 1})
+			}
 		}
 		return evs
 	}
@@ -268,6 +274,29 @@ func verifC05Sys(id string, seed int64) *verifSys {
 			m.Asked[e.I] = false
 			r := p.AnswerSMP([]byte("x"))
 			emit(w, e.I, r.Out)
+		case "reake2":
+			// e.I ends the session; the other side (encryption required) sees the disconnect, leaves the finished state
+			// with End() and writes a new text, which is queued and starts the next exchange
+			m.ReAKE = 0
+			m.Session++
+			o := 1 - e.I
+			r := p.End()
+			for _, u := range r.Out {
+				w.P[o].Receive(u)
+			}
+			w.P[o].End()
+			verifTick(w.P[0].C)
+			verifTick(w.P[1].C)
+			w.P[0].C.Policies.add(requireEncryption)
+			w.P[1].C.Policies.add(requireEncryption)
+			t := append([]byte(fmt.Sprintf("s%d:", m.Session)), verifC04Text(o, 7)...)
+			m.Sent[o] = append(m.Sent[o], t)
+			m.Got[e.I] = append(m.Got[e.I], 0)
+			sr := w.P[o].Send(t)
+			if sr.Panic != "" {
+				fs = append(fs, verifFinding{"C05:panic:" + verifPanicClass(sr.Panic), sr.Panic})
+			}
+			emit(w, o, sr.Out)
 		case "reake":
 			// e.I ends the session and immediately asks for a new one
 			m.ReAKE--
@@ -337,11 +366,11 @@ func init() {
 		Level: "model_checking",
 		Build: verifC05Sys,
 		Run: func(r *verifReport) {
-			r.Rule = "all interleavings of Send/deliver of two parties with a recording network; deviations (deliver out of order, re-deliver an already delivered data message) bounded by D, optional SMP run and End+re-AKE; in EVERY distinct state every completely delivered data message (whole fragment stream) is re-delivered to a clone of its receiver: no plaintext, no SMP/security/key event, no reply other than an OTR error; every text delivered at most once on every path"
+			r.Rule = "all interleavings of Send/deliver of two parties with a recording network (optionally: one side ends the session, the other — encryption required — leaves the finished state and writes a text that starts the next exchange); deviations (deliver out of order, re-deliver an already delivered data message) bounded by D, optional SMP run and End+re-AKE; in EVERY distinct state every completely delivered data message (whole fragment stream) is re-delivered to a clone of its receiver: no plaintext, no SMP/security/key event, no reply other than an OTR error; every text delivered at most once on every path"
 			r.Assumptions = []string{"replays are exact copies of recorded wire messages (modified copies are C02's job)", "per-side send budget S, deviation budget D"}
-			ids := []string{"v3/f0/S2/D1/R0/P0", "v2/f0/S2/D1/R0/P0", "v3/f0/S1/D1/R1/P0", "v3/f150/S1/D1/R0/P0", "v3/f0/S1/D0/R0/P1"}
+			ids := []string{"v3/f0/S2/D1/R0/P0", "v2/f0/S2/D1/R0/P0", "v3/f0/S1/D1/R1/P0", "v3/f150/S1/D1/R0/P0", "v3/f0/S1/D0/R0/P1", "v3/f0/S1/D0/R2/P0"}
 			if r.Tier == "thorough" {
-				ids = []string{"v3/f0/S1/D2/R1/P1", "v2/f0/S1/D1/R0/P1", "v2/f120/S1/D2/R0/P0", "v3/f150/S2/D1/R0/P0", "v2/f0/S2/D1/R1/P0", "v3/f0/S2/D2/R0/P0", "v2/f0/S2/D2/R0/P0", "v3/f0/S2/D2/R1/P0", "v3/f0/S3/D1/R0/P0"}
+				ids = []string{"v3/f0/S1/D2/R1/P1", "v2/f0/S1/D1/R0/P1", "v2/f120/S1/D2/R0/P0", "v3/f150/S2/D1/R0/P0", "v2/f0/S2/D1/R1/P0", "v3/f0/S2/D2/R0/P0", "v2/f0/S2/D2/R0/P0", "v3/f0/S2/D2/R1/P0", "v3/f0/S3/D1/R0/P0", "v2/f0/S1/D0/R2/P0", "v3/f0/S1/D1/R2/P0"}
 			}
 			for _, id := range ids {
 				r.explore(verifC05Sys(id, r.Seed))
